@@ -9,6 +9,7 @@ mod c02;
 mod c03;
 mod c04;
 mod c10;
+mod c11;
 mod c15;
 mod c16;
 mod c17;
@@ -42,6 +43,7 @@ fn eval(op: &str, args: &[&str]) -> Option<Vec<String>> {
         "body" => c10::body(args),
         "hval" | "hvalrt" => c02::hval(args),
         "hname" => c02::hname(args),
+        "mime" => c11::mime(args),
         "mbox" => c17::mbox(args),
         "mboxlist" => c17::mboxlist(args),
         "mboxparse" => c17::mboxparse(args),
